@@ -611,9 +611,97 @@ func checkHostInfo(c *Check, p *Program) {
 		c.Decide(okA, "C16.T5", hn+" advertises the socket's local address", p.InstrPos(in), "HostInfoFromAddress(conn.sock.LocalAddr())", "the advertised endpoint is not the socket's own local address")
 	})
 	// NAT branch: composites with only Protocol set, by network name
+	netNameAt := func(b *ssa.BasicBlock, s string) bool {
+		return anyFact(factsAt(b), func(f Cmp) bool {
+			if f.Op != token.EQL {
+				return false
+			}
+			k, ok := f.Y.(*ssa.Const)
+			if !ok || k.Value == nil || k.Value.ExactString() != `"`+s+`"` {
+				return false
+			}
+			call, ok := f.X.(*ssa.Call)
+			return ok && call.Common().IsInvoke() && call.Common().Method.Name() == "Network"
+		})
+	}
 	if hostFn.Signature.Results().Len() != 2 {
-		c.Fail("C16.T5", hn+" yields (HostInfo, error)", p.Pos(hostFn.Pos()), "the function that calls HostInfoFromAddress does not return the endpoint (it was merged into its caller?): the rule judges the endpoint at that function's returns and cannot follow this shape")
-		return
+		// the endpoint is assembled in a local HostInfo of the connect function itself: judge the definitions of
+		// that variable - the whole value from HostInfoFromAddress, or only its Protocol by network name - and
+		// that every path to the request passes exactly one of them
+		var cell *ssa.Alloc
+		instrsOf(hostFn, func(in ssa.Instruction) {
+			if st, ok := in.(*ssa.Store); ok {
+				if ex, ok := st.Val.(*ssa.Extract); ok && ex.Index == 0 {
+					if call, ok := ex.Tuple.(*ssa.Call); ok && call.Common().StaticCallee() == hi {
+						cell, _ = st.Addr.(*ssa.Alloc)
+					}
+				}
+			}
+		})
+		if cell == nil {
+			c.Fail("C16.T5", hn+" endpoint variable", p.Pos(hostFn.Pos()), "the result of HostInfoFromAddress is not kept in a local HostInfo variable: the shape of the endpoint computation is not understood")
+		} else {
+			isDef := func(in ssa.Instruction) bool {
+				st, ok := in.(*ssa.Store)
+				if !ok {
+					return false
+				}
+				if st.Addr == ssa.Value(cell) {
+					_, isK := st.Val.(*ssa.Const)
+					return !isK // the zero initialisation is no definition
+				}
+				fa, ok := st.Addr.(*ssa.FieldAddr)
+				return ok && fa.X == ssa.Value(cell)
+			}
+			instrsOf(hostFn, func(in ssa.Instruction) {
+				st, ok := in.(*ssa.Store)
+				if !ok || !isDef(in) {
+					return
+				}
+				if fa, ok := st.Addr.(*ssa.FieldAddr); ok {
+					f := structField(fa.X.Type(), fa.Field)
+					k, isK := constInt(st.Val)
+					want := int64(-1)
+					if netNameAt(st.Block(), "udp") {
+						want = udp4
+					} else if netNameAt(st.Block(), "tcp") {
+						want = tcp4
+					}
+					c.Decide(f == proto && isK && want >= 0 && k == want, "C16.T5", hn+" all-zero endpoint with the right protocol", p.InstrPos(st), fmt.Sprintf("Protocol = %d on the matching network edge, nothing else set", k), "the NAT-mode endpoint sets other fields or the wrong protocol code for the socket's network")
+				}
+			})
+			// the request's endpoints are loads of that variable, reached through exactly one definition
+			for _, ss := range p.index().sockSends {
+				if !ss.payloadIs("ConnReq") || ss.Fn != hostFn {
+					continue
+				}
+				if al, ok := ss.PayVal.(*ssa.Alloc); ok {
+					for f, sts := range fieldStores(al) {
+						if !isNamed(f.Type(), knxnetPath, "HostInfo") {
+							continue
+						}
+						for _, st := range sts {
+							ld, isLd := st.Val.(*ssa.UnOp)
+							okLd := isLd && ld.Op == token.MUL && ld.X == ssa.Value(cell)
+							if !okLd && isLd && isLoadOf(ld, a.control) {
+								// via conn.control, assigned from the endpoint variable before the request is built
+								for _, cs := range p.index().stores[a.control] {
+									if cs.Parent() != hostFn || !instrDominates(cs, st) {
+										continue
+									}
+									if l2, ok := cs.Val.(*ssa.UnOp); ok && l2.Op == token.MUL && l2.X == ssa.Value(cell) {
+										okLd = true
+									}
+								}
+							}
+							c.Decide(okLd, "C16.T5", hn+" request."+f.Name()+" carries the endpoint", p.InstrPos(st), "the endpoint variable", "the connect request's "+f.Name()+" is not the computed endpoint")
+							min, max, okP := pathCountTo(hostFn.Blocks[0], st.Block(), isDef)
+							c.Decide(okP && min == 1 && max == 1, "C16.T5", hn+" request."+f.Name()+" endpoint defined exactly once", p.InstrPos(st), "every path to the request passes one definition of the endpoint", fmt.Sprintf("paths to the request pass %d..%d definitions of the endpoint: the zero endpoint without a protocol code (or a mixture) can be advertised", min, max))
+						}
+					}
+				}
+			}
+		}
 	}
 	for _, r := range returnsOf(hostFn) {
 		if len(r.Results) != 2 || !p.returnMayBeNil(r, 1) {
